@@ -225,6 +225,11 @@ fn apply_delta(py: Python, py_src_buf: Py<PyAny>, py_delta: Py<PyAny>) -> PyResu
             out.extend_from_slice(&src_buf[cp_off..cp_off + cp_size]);
             outindex += cp_size;
         } else if cmd != 0 {
+            // A truncated insert is an error even when it is the last
+            // operation (the pure-Python implementation agrees).
+            if cmd as usize > delta_len - index {
+                return Err(ApplyDeltaError::new_err("delta truncated in insert op"));
+            }
             if (cmd as usize) > dest_size {
                 break;
             }
@@ -232,9 +237,6 @@ fn apply_delta(py: Python, py_src_buf: Py<PyAny>, py_delta: Py<PyAny>) -> PyResu
             // Raise ApplyDeltaError if there are more bytes to copy than space
             if cmd as usize > dest_size - outindex {
                 return Err(ApplyDeltaError::new_err("Not enough space to copy"));
-            }
-            if cmd as usize > delta_len - index {
-                return Err(ApplyDeltaError::new_err("delta not empty"));
             }
 
             out.extend_from_slice(&delta[index..index + cmd as usize]);
